@@ -702,6 +702,48 @@ theorem Inv_retry_after_delFail {t : Tracker} {K : Kernel} {L : Owner → Option
     | keep => simp only [lookup_ups_only, hm, if_true, hc]
   · simp only [hm, if_false, lookup_ups_only]
 
+theorem syncO_ok (s : TK) (o : Owner) (ho : o ≠ "") (snap : Snapshot) :
+    s.syncO o snap .ok = (⟨applySnapshot s.t o snap, applyEmit s.K (emitFor s.t o snap (affected s.t o snap)),
+      s.log ++ [(o, emitFor s.t o snap (affected s.t o snap))]⟩, .done) := by
+  unfold TK.syncO syncOwner
+  simp [ho]
+
+theorem syncO_delFail (s : TK) (o : Owner) (ho : o ≠ "") (snap : Snapshot) :
+    s.syncO o snap .delFail =
+      if (emitFor s.t o snap (affected s.t o snap)).dels ≠ [] then
+        (⟨s.t, applyEmit s.K ⟨(emitFor s.t o snap (affected s.t o snap)).ups, []⟩,
+          s.log ++ [(o, ⟨(emitFor s.t o snap (affected s.t o snap)).ups, []⟩)]⟩, .delFailed)
+      else s.syncO o snap .ok := by
+  rw [syncO_ok s o ho]
+  unfold TK.syncO syncOwner
+  simp [ho]
+
+theorem syncO_empty_owner (s : TK) (snap : Snapshot) (oc : Outcome) : s.syncO "" snap oc = (s, .rejected) := by
+  unfold TK.syncO syncOwner
+  simp
+
+theorem setOwner_idem (L : Owner → Option Snapshot) (o : Owner) (s : Snapshot) :
+    setOwner (setOwner L o s) o s = setOwner L o s := by
+  funext x; unfold setOwner; by_cases hx : x = o <;> simp [hx]
+
+theorem Inv_delFail_then_retry {s : TK} {L : Owner → Option Snapshot} (hI : Inv s.t s.K L) (o : Owner)
+    (snap : Snapshot) :
+    Inv ((s.syncO o snap .delFail).1.syncO o snap .ok).1.t ((s.syncO o snap .delFail).1.syncO o snap .ok).1.K
+      (if o = "" then L else setOwner L o snap) := by
+  by_cases ho : o = ""
+  · subst ho
+    simp only [syncO_empty_owner, if_true]
+    exact hI
+  · simp only [ho, if_false]
+    rw [syncO_delFail s o ho]
+    by_cases hd : (emitFor s.t o snap (affected s.t o snap)).dels ≠ []
+    · rw [if_pos hd, syncO_ok _ o ho]
+      exact Inv_retry_after_delFail hI o ho snap
+    · rw [if_neg hd, syncO_ok s o ho, syncO_ok _ o ho]
+      have h2 := Inv_sync (Inv_sync hI o ho snap) o ho snap
+      rw [setOwner_idem] at h2
+      exact h2
+
 /-! ## the cache layer -/
 
 /-- the owner map the cache contents denote: every cached entry under its key, unless it lists no address
